@@ -10,7 +10,7 @@ use crate::exch::{ExchCfg, Gate, Menu};
 use crate::exch_run::{replay_exchange, run_exchanges};
 use crate::gen::*;
 
-pub const RULE: &str = "exchanges = request menu (method, version, framing none/Content-Length/default chunked/explicit chunked, Expect, Connection: close, despite-method) x server menu (optional interim 100 / silent server / refusal, final status {200,204,304,404,301,302,307,403}, version, body none/CL 0/CL n/chunked 1-2 chunks with extension and trailers/close-delimited, Connection: close, trailing bytes of a next response; a non-3xx with Location; both framing headers; a 40-field head; empty-valued fields ahead of Connection / Location) x boundary stopping {off,on}, plus 25 000-byte request bodies with several chunks per write; per exchange the COMPLETE graph of states (full flow fingerprint, consumed, arrived, body cursor, observations) under: head write with every buffer size 0..=|head|+1, body writes with inputs {1,2,rest} x buffers {0,1,5,6,7,8,11,12,large} and direct-write reports, 1-byte arrivals (every window the caller can ever present), try_read_100 / give-up / try_response / read with buffers {0,1,2,3,4,large} at every window, proceed whenever ready; queries and readiness-vs-proceed checked in every state; every final state must show the same observation and the reference verdict; every state must be able to reach the end. distinct = distinct (exchange, final observation) pairs";
+pub const RULE: &str = "exchanges = request menu (method, version, framing none/Content-Length/default chunked/explicit chunked, Expect, Connection: close, despite-method) x server menu (optional interim 100 / silent server / refusal, final status {200,204,304,404,301,302,307,403}, version, body none/CL 0/CL n/chunked 1-2 chunks with extension and trailers/close-delimited, Connection: close, trailing bytes of a next response; a non-3xx with Location; both framing headers; a 40-field head; empty-valued fields ahead of Connection / Location; chunk-size lines of exactly 20 bytes) x boundary stopping {off,on}, plus 25 000-byte request bodies with several chunks per write; per exchange the COMPLETE graph of states (full flow fingerprint, consumed, arrived, body cursor, observations) under: head write with every buffer size 0..=|head|+1, body writes with inputs {1,2,rest} x buffers {0,1,5,6,7,8,11,12,large} and direct-write reports, 1-byte arrivals (every window the caller can ever present), try_read_100 / give-up / try_response / read with buffers {0,1,2,3,4,large} at every window, proceed whenever ready; queries and readiness-vs-proceed checked in every state; every final state must show the same observation and the reference verdict; every state must be able to reach the end. distinct = distinct (exchange, final observation) pairs";
 
 const MANY_FIELDS: [(&str, &str); 40] = [
     ("X-Info-0", "a"), ("X-Info-1", "b"), ("X-Info-2", "c"), ("X-Info-3", "d"), ("X-Info-4", "e"), ("X-Info-5", "f"), ("X-Info-6", "g"), ("X-Info-7", "h"),
@@ -178,6 +178,23 @@ pub fn build(tier: Tier) -> Vec<Arc<ExchCfg>> {
                     }
                 }
             }
+        }
+    }
+    // a chunked response whose size lines are exactly as long as the decoder's documented limit (20 bytes)
+    {
+        use crate::refmodel::chunked::{encode, ChunkSpec};
+        let r = req("GET", "1.1", ReqFraming::Default, 0, false, false, false);
+        let c = encode(&[ChunkSpec { data: b"abc".to_vec(), size_txt: "3".into(), ext: ";ext=aaaaaaaaaaaaaa".into() }, ChunkSpec { data: b"de".to_vec(), size_txt: "00000000000000000002".into(), ext: String::new() }], "0;yyyyyyyyyyyyyyyyyy", &["T1: v"]);
+        let mut fm = final_msg("GET", "1.1", 200, &[], &BodySpec::Chunked { chunks: vec![b"abc".to_vec()], ext: false, trailers: 0 });
+        fm.body = crate::driver::RespBody::Chunked { coding: c.bytes.clone(), payload: c.payload.clone(), ranges: c.data_ranges.clone() };
+        for stop in [false, true] {
+            let mut menu = Menu::default_large();
+            menu.head_bufs = vec![4096];
+            menu.arrive = vec![1];
+            menu.read_bufs = vec![0, 1, 2, 3, 4, 4096];
+            menu.stop_boundary = stop;
+            let c = ExchCfg::new("C01", r.cfg.clone(), r.body.clone(), server(fm.clone(), None, Gate::AfterBody), next.clone(), menu).expect("cfg");
+            out.push(Arc::new(c));
         }
     }
     // large request bodies: several chunks per write, buffers around the 10 KiB chunk size
